@@ -56,8 +56,105 @@ def replay_cwa(rec):
     done(False, f"no failing input among {len(cands)} candidates for {rec['obligation']}")
 
 
+def allocator_violation(spec):
+    """spec: list of elements; an element is ('task', clients, completes, any_completes) or ('parallel', explicit_clients|None, [task specs])"""
+    from esrally.driver import driver
+    from esrally.track import track
+
+    op = track.Operation("op", "bulk", {})
+    cnt = [0]
+
+    def mk(t):
+        cnt[0] += 1
+        return track.Task(f"t{cnt[0]}", op, clients=t[1], completes_parent=t[2], any_completes_parent=t[3])
+
+    schedule, leaves = [], []
+    for el in spec:
+        if el[0] == "task":
+            t = mk(el)
+            schedule.append(t)
+            leaves.append([t])
+        else:
+            ts = [mk(x) for x in el[2]]
+            schedule.append(track.Parallel(ts, clients=el[1]))
+            leaves.append(ts)
+    a = driver.Allocator(schedule)
+    m = a.allocations
+    n = max([1] + [e.clients for e in schedule])
+    if len(m) != n:
+        return f"{len(m)} rows, widest element has {n} clients"
+    if len({len(r) for r in m}) != 1:
+        return f"matrix is not rectangular: row lengths {[len(r) for r in m]}"
+    cols = list(zip(*m))
+    jp_cols = [i for i, c in enumerate(cols) if any(isinstance(x, driver.JoinPoint) for x in c)]
+    for i in jp_cols:
+        if not all(x is cols[i][0] for x in cols[i]):
+            return f"column {i} mixes a join point with other entries"
+    if [cols[i][0].id for i in jp_cols] != list(range(len(schedule) + 1)):
+        return f"join point ids {[cols[i][0].id for i in jp_cols]}, expected 0..{len(schedule)}"
+    if jp_cols[0] != 0 or jp_cols[-1] != len(cols) - 1:
+        return "the matrix does not start and end with a join point"
+    for e, (el, ts) in enumerate(zip(schedule, leaves)):
+        seen = {}
+        completing, anyc = [], []
+        for ci in range(jp_cols[e] + 1, jp_cols[e + 1]):
+            for r, x in enumerate(cols[ci]):
+                if x is None:
+                    continue
+                if not isinstance(x, driver.TaskAllocation) or not any(x.task is t for t in ts):
+                    return f"element {e}: entry {x!r} between its join points is not an allocation of one of its tasks"
+                seen.setdefault(id(x.task), []).append(x.client_index_in_task)
+                if x.total_clients != el.clients:
+                    return f"element {e}: allocation of {x.task.name} says total_clients={x.total_clients}, the element runs {el.clients} clients"
+                if x.global_client_index % n != r:
+                    return f"element {e}: allocation with global index {x.global_client_index} sits in row {r} of {n}"
+                if x.task.completes_parent:
+                    completing.append(r)
+                elif x.task.any_completes_parent:
+                    anyc.append(r)
+        for t in ts:
+            if sorted(seen.get(id(t), [])) != list(range(t.clients)):
+                return f"element {e}: task {t.name} wants clients 0..{t.clients - 1}, allocated client indices {sorted(seen.get(id(t), []))}"
+        jp = cols[jp_cols[e + 1]][0]
+        if sorted(jp.clients_executing_completing_task) != sorted(completing) or sorted(jp.any_task_completes_parent) != sorted(anyc):
+            return (f"join point {jp.id} lists completing clients {sorted(jp.clients_executing_completing_task)} / any-completing {sorted(jp.any_task_completes_parent)}; "
+                    f"its own element has {sorted(completing)} / {sorted(anyc)}")
+    steps = len(a.join_points) - 1
+    nonempty = sum(1 for ts in leaves if any(t.clients > 0 for t in ts))
+    if len(a.tasks_per_joinpoint) != nonempty:
+        return f"{len(a.tasks_per_joinpoint)} task sets for {nonempty} non-empty schedule elements ({steps} steps)"
+    return None
+
+
+def replay_allocator(rec):
+    rnd = random.Random(2)
+    specs = []
+    T = lambda c, cp=False, ac=False: ("task", c, cp, ac)  # noqa: E731
+    specs += [[T(1)], [T(3)], [T(2), T(5), T(1)], [("parallel", None, [T(2), T(1)])], [("parallel", 2, [T(2), T(2), T(1)])], [("parallel", None, [T(1, True), T(3)]), T(2)],
+              [T(2), ("parallel", 3, [T(2, False, True), T(2, True), T(3)]), ("parallel", None, [T(1), T(1, True)]), T(4)]]
+    for _ in range(400):
+        spec = []
+        for _ in range(rnd.randint(1, 4)):
+            if rnd.random() < 0.5:
+                spec.append(T(rnd.randint(1, 5)))
+            else:
+                ts = [T(rnd.randint(1, 4), rnd.random() < 0.3, rnd.random() < 0.3) for _ in range(rnd.randint(1, 4))]
+                spec.append(("parallel", rnd.choice([None, None, rnd.randint(1, 6)]), ts))
+        specs.append(spec)
+    for spec in specs:
+        try:
+            v = allocator_violation(spec)
+        except Exception as ex:  # noqa
+            v = f"raised {type(ex).__name__}: {ex}"
+        if v:
+            done(True, f"Allocator({spec}): {v}")
+    done(False, f"no failing schedule among {len(specs)} candidates for {rec['obligation']}")
+
+
 if __name__ == "__main__":
     rec = load()
     if "calculate_worker_assignments" in rec["target"]:
         replay_cwa(rec)
+    if "Allocator" in rec["target"] or "TaskAllocation" in rec["target"]:
+        replay_allocator(rec)
     done(False, "no adapter for " + rec["target"])
